@@ -278,3 +278,864 @@ theorem NSH.freeHead {fat : Array Nat} {hs : List Nat} {cur next : Nat} (n : NSH
   · simpa using hbase
 
 end CfbVerif.Phys
+
+/-! ## the sector level -/
+namespace CfbVerif.Phys
+open CfbVerif.Raw
+
+/-- the fields that name chain heads are untouched -/
+def SF (p q : P) : Prop :=
+  q.dirStart = p.dirStart ∧ q.miniFatStart = p.miniFatStart ∧ q.rootStart = p.rootStart ∧ q.starts = p.starts
+
+theorem SF.refl (p : P) : SF p p := ⟨rfl, rfl, rfl, rfl⟩
+theorem SF.trans {p q r : P} (h1 : SF p q) (h2 : SF q r) : SF p r :=
+  ⟨h2.1.trans h1.1, h2.2.1.trans h1.2.1, h2.2.2.1.trans h1.2.2.1, h2.2.2.2.trans h1.2.2.2⟩
+
+theorem sf_setFat {p p' : P} {i v : Nat} (h : setFat p i v = .ok p') : SF p p' := by
+  rcases setFat_ok h with ⟨_, he⟩ | ⟨_, he⟩ <;> subst he <;> exact ⟨rfl, rfl, rfl, rfl⟩
+
+theorem sf_initSector {p p' : P} {id : Nat} {k : Init} (h : initSector p id k = .ok p') : SF p p' := by
+  rcases initSector_ok h with ⟨_, he⟩ | ⟨_, he⟩ <;> subst he <;> exact ⟨rfl, rfl, rfl, rfl⟩
+
+theorem sf_writeSector {p p' : P} {id off : Nat} {bs : Bytes} (h : writeSector p id off bs = .ok p') : SF p p' := by
+  unfold writeSector at h
+  split at h
+  · cases h
+  · cases h; exact ⟨rfl, rfl, rfl, rfl⟩
+
+theorem sf_appendFatSector {p p' : P} (h : appendFatSector p = .ok p') : SF p p' := by
+  unfold appendFatSector at h
+  obtain ⟨p1, h1, h⟩ := bind_ok h
+  obtain ⟨p2, h2, h⟩ := bind_ok h
+  have s12 : SF p p2 := (sf_initSector h1).trans ((SF.refl _ : SF _ { p1 with difat := p1.difat ++ [p.fat.size] }).trans (sf_setFat h2))
+  split at h
+  · cases h; exact s12
+  · dsimp only at h
+    split at h
+    · obtain ⟨p3, h3, h⟩ := bind_ok h
+      obtain ⟨p4, h4, h⟩ := bind_ok h
+      cases h
+      exact ((s12.trans (sf_initSector h3)).trans (sf_setFat h4)).trans ⟨rfl, rfl, rfl, rfl⟩
+    · cases h; exact s12
+
+theorem sf_allocateSector {p p' : P} {id : Nat} {k : Init} (h : allocateSector p k = .ok (p', id)) : SF p p' := by
+  unfold allocateSector at h
+  split at h
+  · obtain ⟨p1, h1, h⟩ := bind_ok h
+    obtain ⟨p2, h2, h⟩ := bind_ok h
+    cases h
+    exact ((SF.refl _ : SF p { p with free := p.free.dropLast }).trans (sf_setFat h1)).trans (sf_initSector h2)
+  · split at h
+    · obtain ⟨p0, h0, h⟩ := bind_ok h
+      obtain ⟨p1, h1, h⟩ := bind_ok h
+      obtain ⟨p2, h2, h⟩ := bind_ok h
+      cases h
+      exact ((sf_appendFatSector h0).trans (sf_setFat h1)).trans (sf_initSector h2)
+    · obtain ⟨p0, h0, h⟩ := bind_ok h
+      cases h0
+      obtain ⟨p1, h1, h⟩ := bind_ok h
+      obtain ⟨p2, h2, h⟩ := bind_ok h
+      cases h
+      exact (sf_setFat h1).trans (sf_initSector h2)
+
+/-- what `append_fat_sector` does to the FAT: one FATSECT cell, and a DIFSECT cell when a DIFAT
+sector is added too -/
+theorem appendFatSector_fat {p p' : P} (h0 : appendFatSector p = .ok p') :
+    p'.fat = p.fat.push FATSECT ∨ p'.fat = (p.fat.push FATSECT).push DIFSECT := by
+  unfold appendFatSector at h0
+  obtain ⟨q1, g1, h0⟩ := bind_ok h0
+  obtain ⟨q2, g2, h0⟩ := bind_ok h0
+  have e1 : q1.fat = p.fat := initSector_fat g1
+  have e2 : q2.fat = p.fat.push FATSECT := by
+    rcases setFat_ok g2 with ⟨_, he⟩ | ⟨hl, _⟩
+    · subst he; simp [e1]
+    · simp [e1] at hl
+  split at h0
+  · cases h0; exact Or.inl e2
+  · dsimp only at h0
+    split at h0
+    · obtain ⟨q3, g3, h0⟩ := bind_ok h0
+      obtain ⟨q4, g4, h0⟩ := bind_ok h0
+      cases h0
+      have e3 : q3.fat = q2.fat := initSector_fat g3
+      rcases setFat_ok g4 with ⟨_, he⟩ | ⟨hl, _⟩
+      · subst he; right; simp only [e3, e2]
+      · rw [e3, e2] at hl; simp at hl
+    · cases h0; exact Or.inl e2
+
+/-- cells that `allocate_sector` adds besides the one it hands out are table markers -/
+theorem allocateSector_new {p p' : P} {id : Nat} {k : Init} (inv : Inv p) (h : allocateSector p k = .ok (p', id))
+    (j v : Nat) (hj : p.fat.size ≤ j) (hne : j ≠ id) (hv : p'.fat[j]? = some v) : MAXREG < v := by
+  by_cases hfree : p.free = []
+  · unfold allocateSector at h
+    simp only [hfree, List.getLast?_nil] at h
+    have tail : ∀ {p0 : P}, (∀ j v, p.fat.size ≤ j → p0.fat[j]? = some v → MAXREG < v) →
+        (setFat p0 p0.fat.size END >>= fun p1 => initSector p1 p0.fat.size k >>= fun p2 => pure (p2, p0.fat.size)) = .ok (p', id) →
+        MAXREG < v := by
+      intro p0 hmark h
+      obtain ⟨p1, h1, h⟩ := bind_ok h
+      obtain ⟨p2, h2, h⟩ := bind_ok h
+      cases h
+      rw [initSector_fat h2] at hv
+      rcases setFat_ok h1 with ⟨_, he⟩ | ⟨hl, _⟩
+      · subst he
+        simp only [Array.getElem?_push] at hv
+        split at hv
+        · rename_i he; exact absurd he hne
+        · exact hmark j v hj hv
+      · omega
+    split at h
+    · obtain ⟨p0, h0, h⟩ := bind_ok h
+      refine tail ?_ h
+      intro j v hj hv
+      rcases appendFatSector_fat h0 with e | e
+      · rw [e] at hv
+        simp only [Array.getElem?_push] at hv
+        split at hv
+        · cases hv; exact MAXREG_lt_FATSECT
+        · have := lt_of_get hv; omega
+      · rw [e] at hv
+        simp only [Array.getElem?_push] at hv
+        split at hv
+        · cases hv; exact MAXREG_lt_DIFSECT
+        · split at hv
+          · cases hv; exact MAXREG_lt_FATSECT
+          · have := lt_of_get hv; omega
+    · obtain ⟨p0, h0, h⟩ := bind_ok h
+      cases h0
+      refine tail ?_ h
+      intro j v hj hv
+      have := lt_of_get hv; omega
+  · have r := allocateSector_reuse inv.fat hfree h
+    rw [r.2.2.2.2.1] at hv
+    have := lt_of_get hv
+    simp at this
+    omega
+
+/-- `allocate_sector`: the sector handed out is a new head; every other head stays one -/
+theorem nsh_allocateSector {p p' : P} {id : Nat} {k : Init} {hs : List Nat} (inv : Inv p)
+    (h : allocateSector p k = .ok (p', id)) (hb : p'.fat.size ≤ MAXREG + 1) (n : NSH p.fat hs) :
+    NSH p'.fat (id :: hs) := by
+  have r := inv_allocateSector inv h
+  exact n.claim hb (fun j hj hne => allocateSector_frame inv h j hj hne) r.2.1 r.2.2.1
+    (fun j v hj hne hv => allocateSector_new inv h j v hj hne hv)
+
+/-- `extend_chain`: the new sector is linked behind the last one; the heads are the same -/
+theorem nsh_extendChain {p p' : P} {start id : Nat} {k : Init} {hs : List Nat} (inv : Inv p)
+    (h : extendChain p start k = .ok (p', id)) (hb : p'.fat.size ≤ MAXREG + 1) (n : NSH p.fat hs) :
+    NSH p'.fat hs := by
+  unfold extendChain at h
+  obtain ⟨last, hl, h⟩ := bind_ok h
+  obtain ⟨⟨p1, id1⟩, ha, h⟩ := bind_ok h
+  obtain ⟨p2, hs', h⟩ := bind_ok h
+  cases h
+  have hlast := lastOfChain_ok _ _ hl
+  have r := inv_allocateSector inv ha
+  have hne : last ≠ id := by
+    intro he
+    subst he
+    rcases r.2.2.1 with hfr | hge
+    · rw [hlast.2] at hfr; exact END_ne_FREE (Option.some.inj hfr)
+    · omega
+  have hcell : p1.fat[last]? = some END := by
+    rw [allocateSector_frame inv ha last hlast.1 hne]; exact hlast.2
+  have hb1 : p1.fat.size ≤ MAXREG + 1 := Nat.le_trans (setFat_mono hs') hb
+  have n1 := nsh_allocateSector inv ha hb1 n
+  have hp' : p'.fat = p1.fat.setIfInBounds last id := by
+    rcases setFat_ok hs' with ⟨he, _⟩ | ⟨_, he⟩
+    · have := lt_of_get hcell; omega
+    · subst he; rfl
+  rw [hp']
+  exact n1.link hcell hne
+
+theorem sf_extendChain {p p' : P} {start id : Nat} {k : Init} (h : extendChain p start k = .ok (p', id)) : SF p p' := by
+  unfold extendChain at h
+  obtain ⟨last, hl, h⟩ := bind_ok h
+  obtain ⟨⟨p1, id1⟩, ha, h⟩ := bind_ok h
+  obtain ⟨p2, hs, h⟩ := bind_ok h
+  cases h
+  exact (sf_allocateSector ha).trans (sf_setFat hs)
+
+def hd1 (s : Nat) : List Nat := if s = END then [] else [s]
+
+/-- `free_chain` from a head: the whole chain goes, the other heads stay -/
+theorem nsh_freeChain (fuel : Nat) : ∀ {p p' : P} {cur : Nat} {hs : List Nat},
+    freeChain p fuel cur = .ok p' → NSH p.fat (hd1 cur ++ hs) → NSH p'.fat hs := by
+  induction fuel with
+  | zero => intro p p' cur hs h; simp [freeChain] at h
+  | succ fuel ih =>
+    intro p p' cur hs h n
+    unfold freeChain at h
+    split at h
+    · rename_i he
+      cases h
+      simpa [hd1, he] using n
+    · rename_i hne
+      cases hn : nextSector p.fat cur with
+      | error k => simp [hn] at h
+      | ok next =>
+        simp only [hn] at h
+        have ns := nextSector_ok hn
+        split at h
+        · cases h
+        · cases h1 : setFat p cur FREE with
+          | err e => simp [h1] at h
+          | panic s => simp [h1] at h
+          | hang s => simp [h1] at h
+          | ok p1 =>
+            simp only [h1] at h
+            have hp1 : p1 = { p with fat := p.fat.setIfInBounds cur FREE } := by
+              rcases setFat_ok h1 with ⟨he, _⟩ | ⟨_, he⟩
+              · omega
+              · exact he
+            subst hp1
+            have n0 : NSH p.fat (cur :: hs) := by simpa [hd1, hne] using n
+            have n1 := n0.freeHead ns.2.1 ns.2.2
+            refine ih h ?_
+            -- the successor is END, or a regular sector that is now the head of the rest
+            have hcase : next = END ∨ (next ≠ END ∧ next ≤ MAXREG) := by
+              unfold nextSector at hn
+              split at hn
+              · dsimp only at hn
+                split at hn
+                · cases hn
+                · rename_i hc
+                  cases hn
+                  rcases Nat.lt_or_ge MAXREG (p.fat[cur]) with hgt | hle
+                  · left
+                    rcases Classical.em (p.fat[cur] = END) with he | he
+                    · exact he
+                    · exact absurd ⟨he, Or.inl hgt⟩ hc
+                  · right
+                    exact ⟨by have := MAXREG_lt_END; omega, hle⟩
+              · cases hn
+            rcases hcase with he | ⟨hne', hreg⟩
+            · subst he
+              have : ¬ (END ≤ MAXREG) := Nat.not_le.mpr MAXREG_lt_END
+              simpa [hd1, this] using n1
+            · simpa [hd1, hne', hreg] using n1
+
+theorem sf_freeChain (fuel : Nat) : ∀ {p p' : P} {cur : Nat}, freeChain p fuel cur = .ok p' → SF p p' := by
+  induction fuel with
+  | zero => intro p p' cur h; simp [freeChain] at h
+  | succ fuel ih =>
+    intro p p' cur h
+    unfold freeChain at h
+    split at h
+    · cases h; exact SF.refl _
+    · cases hn : nextSector p.fat cur with
+      | error k => simp [hn] at h
+      | ok next =>
+        simp only [hn] at h
+        split at h
+        · cases h
+        · cases h1 : setFat p cur FREE with
+          | err e => simp [h1] at h
+          | panic s => simp [h1] at h
+          | hang s => simp [h1] at h
+          | ok p1 =>
+            simp only [h1] at h
+            exact ((sf_setFat h1).trans (⟨rfl, rfl, rfl, rfl⟩ : SF p1 { p1 with free := p1.free ++ [cur] })).trans (ih h)
+
+/-- `free_chain_after`: everything behind `id` goes; the heads are the same -/
+theorem nsh_freeChainAfter {p p' : P} {id : Nat} {hs : List Nat}
+    (h : freeChainAfter p id = .ok p') (n : NSH p.fat hs) : NSH p'.fat hs := by
+  unfold freeChainAfter at h
+  cases hn : nextSector p.fat id with
+  | error k => simp [hn] at h
+  | ok next =>
+    simp only [hn] at h
+    obtain ⟨p1, h1, h⟩ := bind_ok h
+    have ns := nextSector_ok hn
+    have hp1 : p1 = { p with fat := p.fat.setIfInBounds id END } := by
+      rcases setFat_ok h1 with ⟨he, _⟩ | ⟨_, he⟩
+      · omega
+      · exact he
+    subst hp1
+    refine nsh_freeChain _ h ?_
+    rcases Classical.em (next = END) with he | he
+    · subst he
+      -- the cell already said END: nothing changes
+      have : p.fat.setIfInBounds id END = p.fat := by
+        apply Array.ext_getElem?
+        intro i
+        simp only [Array.getElem?_setIfInBounds]
+        split
+        · rename_i hi; subst hi
+          have h2 := ns.2.1
+          simp only [ns.1, Array.getElem?_eq_getElem, Option.some.injEq] at h2
+          simp [ns.1, h2]
+        · rfl
+      simpa [hd1, this] using n
+    · have hreg : next ≤ MAXREG := by
+        unfold nextSector at hn
+        split at hn
+        · dsimp only at hn
+          split at hn
+          · cases hn
+          · rename_i hc
+            cases hn
+            rcases Nat.lt_or_ge MAXREG (p.fat[id]) with hgt | hle
+            · exact absurd ⟨he, Or.inl hgt⟩ hc
+            · exact hle
+        · cases hn
+      simpa [hd1, he] using n.cut ns.2.1 hreg
+
+theorem sf_freeChainAfter {p p' : P} {id : Nat} (h : freeChainAfter p id = .ok p') : SF p p' := by
+  unfold freeChainAfter at h
+  cases hn : nextSector p.fat id with
+  | error k => simp [hn] at h
+  | ok next =>
+    simp only [hn] at h
+    obtain ⟨p1, h1, h⟩ := bind_ok h
+    exact (sf_setFat h1).trans (sf_freeChain _ h)
+
+end CfbVerif.Phys
+
+/-! ## summaries that compose -/
+namespace CfbVerif.Phys
+open CfbVerif.Raw
+
+/-- `Keeps p p' a a'`: an operation that turns the heads `a` into `a'` and leaves every other head
+(`X`, arbitrary) alone — as long as the FAT stays inside the range of regular sector numbers -/
+structure Keeps (p p' : P) (a a' : List Nat) : Prop where
+  good : Good p p'
+  keep : p'.fat.size ≤ MAXREG + 1 → Inv p → ∀ X, NSH p.fat (a ++ X) → NSH p'.fat (a' ++ X)
+
+theorem small_of_bound {p : P} (h : p.fat.size ≤ MAXREG + 1) : Small p := by
+  unfold Small; have := MAXREG_lt_FREE; omega
+
+theorem Keeps.refl (p : P) (a : List Nat) : Keeps p p a a := ⟨Good.refl p, fun _ _ _ n => n⟩
+
+theorem Keeps.trans {p q r : P} {a b c : List Nat} (h1 : Keeps p q a b) (h2 : Keeps q r b c) : Keeps p r a c := by
+  refine ⟨h1.good.trans h2.good, ?_⟩
+  intro hb inv X n
+  have hbq : q.fat.size ≤ MAXREG + 1 := Nat.le_trans h2.good.mono hb
+  exact h2.keep hb (h1.good.inv inv (small_of_bound hbq)) X (h1.keep hbq inv X n)
+
+theorem Keeps.of_same {p q : P} (h : SameAlloc p q) (a : List Nat) : Keeps p q a a :=
+  ⟨Good.of_same h, fun _ _ _ n => by rw [h.1]; exact n⟩
+
+/-- more heads in front that the operation does not care about -/
+theorem Keeps.frame {p p' : P} {a a' : List Nat} (Y : List Nat) (h : Keeps p p' a a') : Keeps p p' (Y ++ a) (Y ++ a') := by
+  refine ⟨h.good, ?_⟩
+  intro hb inv X n
+  have p1 : ((Y ++ a) ++ X).Perm (a ++ (Y ++ X)) := by
+    rw [List.append_assoc]
+    exact (List.perm_append_comm_assoc Y a X)
+  have p2 : (a' ++ (Y ++ X)).Perm ((Y ++ a') ++ X) := by
+    rw [List.append_assoc]
+    exact (List.perm_append_comm_assoc a' Y X)
+  exact (h.keep hb inv (Y ++ X) (n.perm p1)).perm p2
+
+theorem keeps_allocateSector {p p' : P} {id : Nat} {k : Init} (h : allocateSector p k = .ok (p', id)) :
+    Keeps p p' [] [id] :=
+  ⟨good_allocateSector h, fun hb inv X n => by simpa using nsh_allocateSector inv h hb n⟩
+
+theorem keeps_extendChain {p p' : P} {start id : Nat} {k : Init} (h : extendChain p start k = .ok (p', id))
+    (a : List Nat) : Keeps p p' a a :=
+  ⟨good_extendChain h, fun hb inv X n => nsh_extendChain inv h hb n⟩
+
+theorem keeps_freeChainFrom {p p' : P} {start : Nat} (h : freeChainFrom p start = .ok p') :
+    Keeps p p' (hd1 start) [] :=
+  ⟨good_freeChainFrom h, fun _ _ X n => by simpa using nsh_freeChain _ h n⟩
+
+theorem keeps_freeChainAfter {p p' : P} {id : Nat} (h : freeChainAfter p id = .ok p') (a : List Nat) :
+    Keeps p p' a a :=
+  ⟨good_freeChainAfter h, fun _ _ X n => nsh_freeChainAfter h n⟩
+
+/-! ## regular chains -/
+
+/-- the head of a chain given by its sector list -/
+def hdl (ids : List Nat) : List Nat := ids.head?.toList
+
+theorem hdl_append {ids : List Nat} (hne : ids ≠ []) (t : List Nat) : hdl (ids ++ t) = hdl ids := by
+  cases ids with
+  | nil => exact absurd rfl hne
+  | cons a l => rfl
+
+theorem keeps_growOne {kind : Init} {p p' : P} {ids ids' : List Nat} (h : growOne kind p ids = .ok (p', ids')) :
+    Keeps p p' (hdl ids) (hdl ids') ∧ SF p p' := by
+  unfold growOne at h
+  split at h
+  · rename_i last hl
+    have hne : ids ≠ [] := by intro he; subst he; simp at hl
+    split at h
+    · rename_i p1 id he
+      cases h
+      rw [hdl_append hne]
+      exact ⟨keeps_extendChain he _, sf_extendChain he⟩
+    · cases h
+    · cases h
+    · cases h
+  · rename_i hl
+    have he0 : ids = [] := List.getLast?_eq_none_iff.mp hl
+    subst he0
+    split at h
+    · rename_i p1 id he
+      cases h
+      exact ⟨by simpa [hdl] using keeps_allocateSector he, sf_allocateSector he⟩
+    · cases h
+    · cases h
+    · cases h
+
+theorem keeps_chainWrite (kind : Init) (fuel : Nat) : ∀ {p p' : P} {ids ids' : List Nat} {off : Nat} {bs : Bytes},
+    chainWrite kind fuel p ids off bs = .ok (p', ids') → Keeps p p' (hdl ids) (hdl ids') ∧ SF p p' := by
+  induction fuel with
+  | zero => intro p p' ids ids' off bs h; simp [chainWrite] at h
+  | succ fuel ih =>
+    intro p p' ids ids' off bs h
+    unfold chainWrite at h
+    split at h
+    · cases h; exact ⟨Keeps.refl _ _, SF.refl _⟩
+    · dsimp only at h
+      split at h
+      · rename_i p1 ids1 hgrow
+        have g1 : Keeps p p1 (hdl ids) (hdl ids1) ∧ SF p p1 := by
+          split at hgrow
+          · exact keeps_growOne hgrow
+          · cases hgrow; exact ⟨Keeps.refl _ _, SF.refl _⟩
+        split at h
+        · cases h
+        · split at h
+          · rename_i p2 hw
+            have r := ih h
+            exact ⟨(g1.1.trans (Keeps.of_same (writeSector_same hw) _)).trans r.1, (g1.2.trans (sf_writeSector hw)).trans r.2⟩
+          · cases h
+          · cases h
+          · cases h
+      · cases h
+      · cases h
+      · cases h
+
+theorem keeps_chainGrow (kind : Init) (fuel : Nat) : ∀ {p p' : P} {ids ids' : List Nat} {target : Nat},
+    chainGrow kind fuel p ids target = .ok (p', ids') → Keeps p p' (hdl ids) (hdl ids') ∧ SF p p' := by
+  induction fuel with
+  | zero => intro p p' ids ids' target h; simp [chainGrow] at h
+  | succ fuel ih =>
+    intro p p' ids ids' target h
+    unfold chainGrow at h
+    split at h
+    · cases h; exact ⟨Keeps.refl _ _, SF.refl _⟩
+    · split at h
+      · rename_i p1 ids1 hg
+        have g := keeps_growOne hg
+        have r := ih h
+        exact ⟨g.1.trans r.1, g.2.trans r.2⟩
+      · cases h
+      · cases h
+      · cases h
+
+theorem S_pos (p : P) : 0 < p.S := by
+  unfold P.S sectorLenOf
+  split <;> decide
+
+/-- `Chain::set_len` to a non-zero length: the chain keeps its head (or gets one) -/
+theorem keeps_chainSetLen {p p' : P} {ids ids' : List Nat} {kind : Init} {n : Nat} (hn : 0 < n)
+    (h : chainSetLen p ids kind n = .ok (p', ids')) : Keeps p p' (hdl ids) (hdl ids') ∧ SF p p' := by
+  unfold chainSetLen at h
+  dsimp only at h
+  have hpos : (p.S + n - 1) / p.S ≠ 0 := by
+    have hS := S_pos p
+    intro he
+    have := (Nat.div_eq_zero_iff).mp he
+    omega
+  rw [if_neg hpos] at h
+  split at h
+  · split at h
+    · split at h
+      · obtain ⟨q, hf, h⟩ := obind_ok h
+        cases h; exact ⟨keeps_freeChainAfter hf _, sf_freeChainAfter hf⟩
+      · cases h
+    · cases h; exact ⟨Keeps.refl _ _, SF.refl _⟩
+  · exact keeps_chainGrow _ _ h
+
+end CfbVerif.Phys
+
+/-! ## the mini level: only the two container chains (MiniFAT, mini stream) touch the FAT -/
+namespace CfbVerif.Phys
+open CfbVerif.Raw
+
+/-- heads of the chains that belong to the file itself: directory, MiniFAT, mini stream -/
+def cont (p : P) : List Nat := p.dirStart :: (hd1 p.miniFatStart ++ hd1 p.rootStart)
+
+structure KK (p p' : P) : Prop where
+  k : Keeps p p' (cont p) (cont p')
+  starts : p'.starts = p.starts
+
+theorem KK.refl (p : P) : KK p p := ⟨Keeps.refl _ _, rfl⟩
+theorem KK.trans {p q r : P} (h1 : KK p q) (h2 : KK q r) : KK p r := ⟨h1.k.trans h2.k, h2.starts.trans h1.starts⟩
+
+theorem cont_of_sf {p q : P} (h : SF p q) : cont q = cont p := by
+  unfold cont; rw [h.1, h.2.1, h.2.2.1]
+
+theorem KK.of_same {p q : P} (h : SameAlloc p q) (s : SF p q) : KK p q :=
+  ⟨by rw [cont_of_sf s]; exact Keeps.of_same h _, s.2.2.2⟩
+
+theorem KK.of_keeps {p q : P} (h : ∀ a, Keeps p q a a) (s : SF p q) : KK p q :=
+  ⟨by rw [cont_of_sf s]; exact h _, s.2.2.2⟩
+
+theorem sf_setMiniFat {p p' : P} {i v : Nat} (h : setMiniFat p i v = .ok p') : SF p p' := by
+  have := (setMiniFat_ok h).1
+  rw [this]; exact ⟨rfl, rfl, rfl, rfl⟩
+
+theorem sf_popFreeMini {p p1 : P} {fuel : Nat} {r : Option Nat} (h : popFreeMini p fuel = .ok (p1, r)) : SF p p1 := by
+  have := (popFreeMini_ok fuel h).1
+  rw [this]; exact ⟨rfl, rfl, rfl, rfl⟩
+
+theorem hd1_reg {id : Nat} (h : id ≤ MAXREG) : hd1 id = [id] := by
+  unfold hd1; rw [if_neg]; have := MAXREG_lt_END; omega
+
+theorem kk_ensureRootRoom {p p' : P} (h : ensureRootRoom p = .ok p') : KK p p' := by
+  unfold ensureRootRoom at h
+  split at h
+  · rename_i hend
+    split at h
+    · rename_i p1 id ha
+      cases h
+      have sf := sf_allocateSector ha
+      refine ⟨⟨(good_allocateSector ha).trans (Good.of_same ⟨rfl, rfl, rfl, rfl⟩), ?_⟩, sf.2.2.2⟩
+      intro hb inv X n
+      have n1 := nsh_allocateSector inv ha hb n
+      have hreg : id ≤ MAXREG := n1.head_reg (List.mem_cons_self ..)
+      have hc : cont { p1 with rootStart := id } ++ X = (p.dirStart :: hd1 p.miniFatStart) ++ id :: X := by
+        simp [cont, sf.1, sf.2.1, hd1_reg hreg]
+      have hc0 : cont p ++ X = (p.dirStart :: hd1 p.miniFatStart) ++ X := by
+        simp [cont, hend, hd1]
+      rw [hc]
+      rw [hc0] at n1
+      exact n1.perm List.perm_middle.symm
+    · cases h
+    · cases h
+    · cases h
+  · split at h
+    · split at h
+      · split at h
+        · split at h
+          · rename_i he; cases h
+            exact KK.of_keeps (keeps_extendChain he) (sf_extendChain he)
+          · cases h
+          · cases h
+          · cases h
+        · cases h; exact KK.refl _
+      · cases h
+      · cases h
+      · cases h
+    · cases h; exact KK.refl _
+
+theorem kk_appendMiniSector {p p' : P} (h : appendMiniSector p = .ok p') : KK p p' := by
+  unfold appendMiniSector at h
+  split at h
+  · rename_i hr; cases h
+    exact (kk_ensureRootRoom hr).trans (KK.of_same ⟨rfl, rfl, rfl, rfl⟩ ⟨rfl, rfl, rfl, rfl⟩)
+  · cases h
+  · cases h
+  · cases h
+
+theorem kk_ensureMiniFatRoom {p p' : P} (h : ensureMiniFatRoom p = .ok p') : KK p p' := by
+  unfold ensureMiniFatRoom at h
+  dsimp only at h
+  split at h
+  · rename_i hend
+    split at h
+    · rename_i p1 id ha
+      cases h
+      have sf := sf_allocateSector ha
+      refine ⟨⟨(good_allocateSector ha).trans (Good.of_same ⟨rfl, rfl, rfl, rfl⟩), ?_⟩, sf.2.2.2⟩
+      intro hb inv X n
+      have n1 := nsh_allocateSector inv ha hb n
+      have hreg : id ≤ MAXREG := n1.head_reg (List.mem_cons_self ..)
+      have hc : cont { p1 with miniFatStart := id } ++ X = [p.dirStart] ++ id :: (hd1 p.rootStart ++ X) := by
+        simp [cont, sf.1, sf.2.2.1, hd1_reg hreg]
+      have hc0 : cont p ++ X = [p.dirStart] ++ (hd1 p.rootStart ++ X) := by
+        simp [cont, hend, hd1]
+      rw [hc]
+      rw [hc0] at n1
+      exact n1.perm List.perm_middle.symm
+    · cases h
+    · cases h
+    · cases h
+  · split at h
+    · split at h
+      · split at h
+        · split at h
+          · rename_i he; cases h
+            exact KK.of_keeps (keeps_extendChain he) (sf_extendChain he)
+          · cases h
+          · cases h
+          · cases h
+        · cases h; exact KK.refl _
+      · cases h
+      · cases h
+      · cases h
+    · cases h; exact KK.refl _
+
+theorem kk_setMiniFat {p p' : P} {i v : Nat} (h : setMiniFat p i v = .ok p') : KK p p' :=
+  KK.of_same (same_setMiniFat h) (sf_setMiniFat h)
+
+theorem kk_allocateMiniSector {p p' : P} {v id : Nat} (h : allocateMiniSector p v = .ok (p', id)) : KK p p' := by
+  unfold allocateMiniSector at h
+  obtain ⟨⟨p1, reuse⟩, hp, h⟩ := bind_ok h
+  have g0 : KK p p1 := KK.of_same (same_popFreeMini hp) (sf_popFreeMini hp)
+  dsimp only at h
+  split at h
+  · obtain ⟨p2, hs, h⟩ := bind_ok h
+    cases h
+    exact g0.trans (kk_setMiniFat hs)
+  · obtain ⟨p2, h2, h⟩ := bind_ok h
+    obtain ⟨p3, h3, h⟩ := bind_ok h
+    obtain ⟨p4, h4, h⟩ := bind_ok h
+    cases h
+    exact ((g0.trans (kk_ensureMiniFatRoom h2)).trans (kk_appendMiniSector h3)).trans (kk_setMiniFat h4)
+
+theorem kk_extendMiniChain {p p' : P} {start id : Nat} (h : extendMiniChain p start = .ok (p', id)) : KK p p' := by
+  unfold extendMiniChain at h
+  obtain ⟨last, hl, h⟩ := bind_ok h
+  obtain ⟨⟨p1, i1⟩, ha, h⟩ := bind_ok h
+  obtain ⟨p2, hs, h⟩ := bind_ok h
+  cases h
+  exact (kk_allocateMiniSector ha).trans (kk_setMiniFat hs)
+
+theorem sf_freeMiniSector {p p' : P} {id : Nat} (h : freeMiniSector p id = .ok p') : SF p p' := by
+  unfold freeMiniSector at h
+  split at h
+  · cases h
+  · split at h
+    · cases h
+    · obtain ⟨p1, hs, h⟩ := bind_ok h
+      cases h
+      have := sf_setMiniFat hs
+      exact ⟨this.1, this.2.1, this.2.2.1, this.2.2.2⟩
+
+theorem kk_freeMiniChain (fuel : Nat) : ∀ {p p' : P} {cur : Nat}, freeMiniChain p fuel cur = .ok p' → KK p p' := by
+  induction fuel with
+  | zero => intro p p' cur h; simp [freeMiniChain] at h
+  | succ fuel ih =>
+    intro p p' cur h
+    unfold freeMiniChain at h
+    split at h
+    · cases h; exact KK.refl _
+    · split at h
+      · cases h
+      · split at h
+        · rename_i p1 hf
+          exact (KK.of_same (same_freeMiniSector hf) (sf_freeMiniSector hf)).trans (ih h)
+        · cases h
+        · cases h
+        · cases h
+
+theorem kk_freeMiniChainFrom {p p' : P} {start : Nat} (h : freeMiniChainFrom p start = .ok p') : KK p p' :=
+  kk_freeMiniChain _ h
+
+theorem kk_freeMiniChainAfter {p p' : P} {id : Nat} (h : freeMiniChainAfter p id = .ok p') : KK p p' := by
+  unfold freeMiniChainAfter at h
+  split at h
+  · cases h
+  · obtain ⟨p1, hs, h⟩ := bind_ok h
+    exact (kk_setMiniFat hs).trans (kk_freeMiniChain _ h)
+
+theorem kk_miniWriteAt {p p' : P} {m off : Nat} {bs : Bytes} (h : miniWriteAt p m off bs = .ok p') : KK p p' := by
+  unfold miniWriteAt at h
+  obtain ⟨⟨sid, base⟩, hl, h⟩ := bind_ok h
+  exact KK.of_same (writeSector_same h) (sf_writeSector h)
+
+theorem kk_growOneMini {p p' : P} {ids ids' : List Nat} (h : growOneMini p ids = .ok (p', ids')) : KK p p' := by
+  unfold growOneMini at h
+  split at h
+  · split at h
+    · rename_i he; cases h; exact kk_extendMiniChain he
+    · cases h
+    · cases h
+    · cases h
+  · split at h
+    · rename_i he; cases h; exact kk_allocateMiniSector he
+    · cases h
+    · cases h
+    · cases h
+
+theorem kk_miniChainWrite (fuel : Nat) : ∀ {p p' : P} {ids ids' : List Nat} {off : Nat} {bs : Bytes},
+    miniChainWrite fuel p ids off bs = .ok (p', ids') → KK p p' := by
+  induction fuel with
+  | zero => intro p p' ids ids' off bs h; simp [miniChainWrite] at h
+  | succ fuel ih =>
+    intro p p' ids ids' off bs h
+    unfold miniChainWrite at h
+    split at h
+    · cases h; exact KK.refl _
+    · split at h
+      · rename_i p1 ids1 hgrow
+        have g1 : KK p p1 := by
+          split at hgrow
+          · exact kk_growOneMini hgrow
+          · cases hgrow; exact KK.refl _
+        split at h
+        · cases h
+        · dsimp only at h
+          split at h
+          · rename_i p2 hw
+            exact (g1.trans (kk_miniWriteAt hw)).trans (ih h)
+          · cases h
+          · cases h
+          · cases h
+      · cases h
+      · cases h
+      · cases h
+
+theorem kk_miniChainGrow (fuel : Nat) : ∀ {p p' : P} {ids ids' : List Nat} {target : Nat},
+    miniChainGrow fuel p ids target = .ok (p', ids') → KK p p' := by
+  induction fuel with
+  | zero => intro p p' ids ids' target h; simp [miniChainGrow] at h
+  | succ fuel ih =>
+    intro p p' ids ids' target h
+    unfold miniChainGrow at h
+    split at h
+    · cases h; exact KK.refl _
+    · split at h
+      · rename_i p1 ids1 hg
+        split at h
+        · rename_i p2 hw
+          exact ((kk_growOneMini hg).trans (kk_miniWriteAt hw)).trans (ih h)
+        · cases h
+        · cases h
+        · cases h
+      · cases h
+      · cases h
+      · cases h
+
+theorem kk_miniChainSetLen {p p' : P} {ids ids' : List Nat} {n : Nat}
+    (h : miniChainSetLen p ids n = .ok (p', ids')) : KK p p' := by
+  unfold miniChainSetLen at h
+  dsimp only at h
+  split at h
+  · split at h
+    · obtain ⟨q, hf, h⟩ := obind_ok h
+      cases h; exact kk_freeMiniChain _ hf
+    · cases h; exact KK.refl _
+  · split at h
+    · split at h
+      · split at h
+        · obtain ⟨q, hf, h⟩ := obind_ok h
+          cases h; exact kk_freeMiniChainAfter hf
+        · cases h
+      · cases h; exact KK.refl _
+    · exact kk_miniChainGrow _ h
+
+end CfbVerif.Phys
+
+/-! ## streams: which start sectors are heads is decided by the stream lengths -/
+namespace CfbVerif.Phys
+open CfbVerif.Raw
+
+theorem NSH.sublist {fat : Array Nat} {hs hs' : List Nat} (n : NSH fat hs) (h : hs'.Sublist hs) : NSH fat hs' :=
+  n.sub (n.nodup.sublist h) (fun _ hx => h.subset hx)
+
+/-- `L` gives every directory slot the (flushed) length of its stream: a stream of at least
+`CUTOFF` bytes lives in a regular chain, whose first sector is a head -/
+def isRegStart (L : Nat → Nat) (e : Nat × Nat) : Bool := decide (CUTOFF ≤ L e.1) && (e.2 != END)
+
+def regs (starts : List (Nat × Nat)) (L : Nat → Nat) : List Nat := (starts.filter (isRegStart L)).map (·.2)
+
+def heads (p : P) (L : Nat → Nat) : List Nat := cont p ++ regs p.starts L
+
+def startIn (starts : List (Nat × Nat)) (s : Nat) : Nat := ((starts.find? (·.1 == s)).map (·.2)).getD END
+
+theorem startOf_eq (p : P) (s : Nat) : startOf p s = startIn p.starts s := rfl
+
+def ownOf (starts : List (Nat × Nat)) (L : Nat → Nat) (s : Nat) : List Nat :=
+  if CUTOFF ≤ L s ∧ startIn starts s ≠ END then [startIn starts s] else []
+
+def others (starts : List (Nat × Nat)) (s : Nat) : List (Nat × Nat) := starts.filter (·.1 != s)
+
+theorem filter_key_eq {starts : List (Nat × Nat)} {s : Nat} (hk : (starts.map (·.1)).Nodup) :
+    starts.filter (·.1 == s) = (starts.find? (·.1 == s)).toList := by
+  induction starts with
+  | nil => rfl
+  | cons e t ih =>
+    have hk' := List.nodup_cons.mp (by simpa using hk)
+    by_cases he : e.1 = s
+    · have hnone : t.filter (·.1 == s) = [] := by
+        apply List.filter_eq_nil_iff.mpr
+        intro x hx hxs
+        have : x.1 = s := by simpa using hxs
+        apply hk'.1
+        rw [he, ← this]
+        exact List.mem_map_of_mem hx
+      simp [List.filter_cons, List.find?_cons, he, hnone]
+    · have hb : (e.1 == s) = false := by simpa using he
+      simp only [List.filter_cons, List.find?_cons, hb]
+      exact ih hk'.2
+
+theorem regs_split (starts : List (Nat × Nat)) (L : Nat → Nat) (s : Nat) (hk : (starts.map (·.1)).Nodup) :
+    (regs starts L).Perm (ownOf starts L s ++ regs (others starts s) L) := by
+  have hp : starts.Perm (starts.filter (·.1 == s) ++ others starts s) := by
+    have := List.filter_append_perm (fun e : Nat × Nat => e.1 == s) starts
+    unfold others
+    have hneg : (fun e : Nat × Nat => !(e.1 == s)) = (fun e : Nat × Nat => e.1 != s) := by
+      funext e; rfl
+    rw [hneg] at this
+    exact this.symm
+  have h1 : (regs starts L).Perm (regs (starts.filter (·.1 == s) ++ others starts s) L) := by
+    unfold regs
+    exact (hp.filter _).map _
+  have h2 : regs (starts.filter (·.1 == s) ++ others starts s) L =
+      regs (starts.filter (·.1 == s)) L ++ regs (others starts s) L := by
+    unfold regs; rw [List.filter_append, List.map_append]
+  have h3 : regs (starts.filter (·.1 == s)) L = ownOf starts L s := by
+    rw [filter_key_eq hk]
+    unfold ownOf startIn regs
+    cases hf : starts.find? (·.1 == s) with
+    | none => simp
+    | some e =>
+      have hes : e.1 = s := by
+        have := List.find?_some hf; simpa using this
+      simp only [Option.toList, Option.map, Option.getD, List.filter_cons, List.filter_nil, isRegStart, hes]
+      by_cases h1 : CUTOFF ≤ L s
+      · by_cases h2 : e.2 = END
+        · simp [h1, h2]
+        · simp [h1, h2]
+      · simp [h1]
+  rw [h2, h3] at h1
+  exact h1
+
+theorem regs_others_congr (starts : List (Nat × Nat)) {L L' : Nat → Nat} {s : Nat}
+    (hL : ∀ t, t ≠ s → L' t = L t) : regs (others starts s) L' = regs (others starts s) L := by
+  unfold regs others
+  congr 1
+  rw [List.filter_filter, List.filter_filter]
+  apply List.filter_congr
+  intro e _
+  by_cases he : e.1 = s
+  · simp [he]
+  · simp [isRegStart, hL e.1 he]
+
+structure JJ (p : P) (L : Nat → Nat) : Prop where
+  inv : Inv p
+  ns : NSH p.fat (heads p L)
+  keys : (p.starts.map (·.1)).Nodup
+
+/-- the common shape of every stream-level step on slot `s` -/
+theorem jj_step {p p' : P} {L L' : Nat → Nat} {s : Nat} {b : List Nat} (j : JJ p L)
+    (hL : ∀ t, t ≠ s → L' t = L t)
+    (hk : Keeps p p' (cont p ++ ownOf p.starts L s) (cont p' ++ b))
+    (hsub : (ownOf p'.starts L' s).Sublist b)
+    (ho : others p'.starts s = others p.starts s)
+    (hkeys : (p'.starts.map (·.1)).Nodup)
+    (hb : p'.fat.size ≤ MAXREG + 1) : JJ p' L' := by
+  have hbp : p.fat.size ≤ MAXREG + 1 := Nat.le_trans hk.good.mono hb
+  refine ⟨hk.good.inv j.inv (small_of_bound hb), ?_, hkeys⟩
+  have n0 : NSH p.fat ((cont p ++ ownOf p.starts L s) ++ regs (others p.starts s) L) := by
+    refine j.ns.perm ?_
+    unfold heads
+    rw [List.append_assoc]
+    exact (regs_split p.starts L s j.keys).append_left _
+  have n1 := hk.keep hb j.inv _ n0
+  have n2 : NSH p'.fat ((cont p' ++ ownOf p'.starts L' s) ++ regs (others p'.starts s) L') := by
+    rw [ho, regs_others_congr _ hL]
+    refine n1.sublist ?_
+    exact ((List.Sublist.refl _).append hsub).append (List.Sublist.refl _)
+  refine n2.perm ?_
+  unfold heads
+  rw [List.append_assoc]
+  exact ((regs_split p'.starts L' s hkeys).append_left _).symm
+
+end CfbVerif.Phys
